@@ -16,7 +16,7 @@ ID = "C14"
 MANIFEST = {
     "category": "exploration",
     "text": "Generated-input search with a metamorphic oracle: deep AHBs in which SOLL (all spellings and letter cases) is forced to occur at groups, segments and free-text data elements x content evaluation results x both flag values. The full ValidationResultInContext list of validate_deep_anwendungshandbuch(tree, flag) must equal the one for the tree with every SOLL rewritten to MUSS (flag True) resp. KANN (flag False), under either flag value; or all three raise NotImplementedError. The same relation is checked for validate_segment_level / validate_segment on drawn sub-trees.",
-    "note": "Trusted: the indicator rewrite (done on the structured parts, re-rendered by the same renderer) and attrs equality of the result objects. No reference model is involved. Process configuration by shard (vlib/sut.py; recorded in replay files): plain / parse caches preheated beyond their size / warnings attributed to ahbicht raised as errors / logging fully enabled with every record rendered.",
+    "note": "Trusted: the indicator rewrite (done on the structured parts, re-rendered by the same renderer) and attrs equality of the result objects. No reference model is involved. Process configuration by shard (vlib/sut.py; recorded in replay files): plain / parse caches preheated beyond their size / warnings attributed to ahbicht raised as errors / logging fully enabled with every record rendered; one event loop per process or a new one per call; five process time zones; the hash seed is the shard number; namesakes of ahbicht's marshmallow schema classes are registered.",
     "technique": "property-based testing with a metamorphic relation (flag value vs rewritten indicators)",
 }
 LEVEL = "exploration"
